@@ -395,6 +395,39 @@ func (b *wfBuilder) chooseType(i int) {
 			}
 		}
 	}
+	// another instantiation of the generic type of the node's first dependency:
+	// a provider from G[A] to G[B]
+	if nd.kind == "func" && len(nd.deps) > 0 && len(nd.binders) == 0 && !nd.needStruct && b.pct(30, "genericofdep") {
+		if dt := b.nodes[nd.deps[0]].t; dt != nil {
+			g := dt
+			if g.K == "ptr" {
+				g = g.Elem
+			}
+			if g.K == "named" && len(g.Args) > 0 {
+				var args []*Type
+				for _, cand := range [][]*Type{{Basic("bool")}, {Basic("float64")}, {Slice(Basic("string"))}} {
+					a := cand
+					if len(g.Args) == 2 {
+						a = []*Type{g.Args[0], cand[0]}
+					}
+					key := fmt.Sprintf("%d/%s", g.Decl, TypeString(b.s, &Type{K: "named", Decl: g.Decl, Args: a}))
+					if !b.basic[key] {
+						b.basic[key] = true
+						args = a
+						break
+					}
+				}
+				if args != nil {
+					nd.shape = "genericofdep"
+					nd.t = &Type{K: "named", Decl: g.Decl, Args: args}
+					if b.pct(40, "genericofdepptr") {
+						nd.t = Ptr(nd.t)
+					}
+					return
+				}
+			}
+		}
+	}
 	if shape == "basic" {
 		var free []string
 		for _, bn := range basicPool {
